@@ -12,6 +12,8 @@ mod core;
 mod c16;
 mod c17;
 mod c18;
+mod c19;
+mod simfs;
 mod rng;
 mod sched;
 
@@ -124,6 +126,7 @@ fn main() {
                     run_one(&c17::C17, &opt)
                 }
                 "C18" => run_one(&c18::C18, &opt),
+                "C19" => run_one(&c19::C19, &opt),
                 _ => {
                     eprintln!("HARNESS-ERROR unknown or unclaimed property {id}");
                     2
@@ -150,6 +153,7 @@ fn main() {
                     replay_file(&c17::C17, &doc)
                 }
                 "C18" => replay_file(&c18::C18, &doc),
+                "C19" => replay_file(&c19::C19, &doc),
                 other => {
                     eprintln!("HARNESS-ERROR unknown property in replay file: {other}");
                     2
